@@ -81,8 +81,8 @@ static int case_shutdown_bound() {      // 0 ok, 1 plain sleep uncapped, 2 wait-
     photon::thread_shutdown(th, true); s_phase = 2;
     while (s_phase != 3) photon::thread_usleep(1000);
     photon::vcpu_fini();
-    if (s_plain_us > 100 * 1000) { why = "thread_usleep(300 ms) of a thread marked by thread_shutdown() blocked " + std::to_string(s_plain_us) + " us"; return 1; }
-    if (s_sem_us > 100 * 1000) { why = "semaphore::wait(1, 300 ms) of a thread marked by thread_shutdown() blocked " + std::to_string(s_sem_us) + " us (returned " + std::to_string(s_sem_r) + "): the 10 ms cap is applied by thread_usleep() only, not by the sleep every wait queue uses"; return 2; }
+    if (s_plain_us > 250 * 1000) { why = "thread_usleep(300 ms) of a thread marked by thread_shutdown() blocked " + std::to_string(s_plain_us) + " us"; return 1; }
+    if (s_sem_us > 250 * 1000) { why = "semaphore::wait(1, 300 ms) of a thread marked by thread_shutdown() blocked " + std::to_string(s_sem_us) + " us (returned " + std::to_string(s_sem_r) + "): the 10 ms cap is applied by thread_usleep() only, not by the sleep every wait queue uses"; return 2; }
     return 0;
 }
 static bool is_known(const char* cls) { const char* k = getenv("VERIF_KNOWN"); return k && strstr(k, cls); }
